@@ -69,6 +69,10 @@ fn check_month(ctx: &Ctx, civ: &Civil, y: i32, m: u8, nsteps: &[isize], with_ind
       let rp = vec!["month".to_string(), y.to_string(), m.to_string()];
       let r = guard(|| {
         let w = SolarWeek::from_ym(y as isize, m as usize, idx, start);
+        let sm = w.get_solar_month();
+        if sm.get_year() != y as isize || sm.get_month() != m as usize {
+          panic!("SolarWeek::get_solar_month() = {}-{}", sm.get_year(), sm.get_month());
+        }
         (ymd_of(&w.get_first_day()), w.get_days().iter().map(|d| ymd_of(d)).collect::<Vec<_>>(), w.get_first_day().get_week().get_index())
       });
       match r {
